@@ -368,7 +368,6 @@ func TestSubtreeReplacement(t *testing.T) {
 	harness.Check(t, "subtree-replacement", 8000, 300000, func(rt *rapid.T) {
 		v := rapid.SampledFrom([]px.Ver{px.V56, px.V74}).Draw(rt, "version")
 		o := progs.StructuralOptions(v)
-		o.NoHTML = true
 		c := progs.Draw(rt, v, o, 1, 4)
 		lay := c.G.Render(c.Root, progs.Policy(rt, phpgen.PolicyFull, nil))
 		src := lay.Src
@@ -498,6 +497,14 @@ func TestReplay(t *testing.T) {
 		fmt.Sscanf(vi.Meta["version"], "%d.%d", &v.Major, &v.Minor)
 		if m := replayTokenEdit(src, v, vi.Meta["edits"]); m != "" {
 			harness.Failf(t, "token-edit", src, vi.Meta, "%s", m)
+		}
+		return
+	}
+	if vi.Meta["removed"] != "" {
+		var v px.Ver
+		fmt.Sscanf(vi.Meta["version"], "%d.%d", &v.Major, &v.Minor)
+		if m := replayTokenRemoval(src, v, vi.Meta["removed"]); m != "" {
+			harness.Failf(t, "token-removal", src, vi.Meta, "%s", m)
 		}
 		return
 	}
